@@ -118,6 +118,16 @@ def check(case, ctx):
                                         ok = ok and g in m and ints[g] == max(ints[j] for j in m)
                             if not ok:
                                 ctx.fail('match-largest', exp, got, call=[A, B, tol, typ, 'largest', list(ints)])
+            # the same lists and the same number as tolerance, asked in Th, then in ppm, then in Th again (a history of
+            # three calls): each answer is the brute-force answer for its own tolerance type
+            for tol in (0.5, 100.0):
+                for typ in ('th', 'ppm', 'th'):
+                    exp = brute(A, B, tol, typ)
+                    e2 = [None if not m else m for m in exp]
+                    st, got = lib.call(p.match_spectra, list(A), list(B), tol, typ, 'all')
+                    ctx.evals += 1
+                    if st != 'ok' or got != e2:
+                        ctx.fail('match-all-after-other-tolerance-type', e2, got, call=[A, B, tol, typ, 'all'])
         ctx.sub_states = nsub          # one sub-state per (A, B, tolerance type, tolerance)
         ctx.sub_nontrivial = nsub if A else 0
         ctx.outcome = [A, nmatch]
